@@ -39,8 +39,10 @@ var (
 )
 
 // answer symbols: A B = records, C = continuable error, F G = fatal errors, E = EOF,
-// X = record bytes together with a fatal error, Y = record bytes together with a continuable error.
-const c01Answers = "ABCFGEXY"
+// X = record bytes together with a fatal error, Y = record bytes together with a continuable error,
+// P = the ingester panics (a caller's custom_func or handler can): the panic may pass through Read - then
+// nothing more is asked of that Transform - but if Read does return, what it returns is held to the contract.
+const c01Answers = "ABCFGEXYP"
 
 type scriptIngester struct {
 	script string
@@ -77,6 +79,8 @@ func (s *scriptIngester) Read() (schemahandler.RawRecord, []byte, error) {
 	case 'Y':
 		r, b := rec("Y")
 		return r, b, errCont
+	case 'P':
+		panic("scripted ingester panic")
 	}
 	return nil, nil, io.EOF
 }
@@ -130,7 +134,13 @@ func c01RunE1(cs c01E1Case) (sig, detail string, reads []string, states []string
 		switch cs.History[i] {
 		case 'R':
 			callsBefore := h.last.calls
-			b, err := tr.Read()
+			var b []byte
+			var err error
+			if pv, _ := core.Safe(func() { b, err = tr.Read() }); pv != nil {
+				// the panic of the caller's own code came through: the Transform is left alone from here on
+				reads = append(reads, "panic passed through")
+				return "", "", reads, states
+			}
 			readSeen = true
 			reads = append(reads, hx.Classify(b, err).String())
 			if terminal != nil {
@@ -161,6 +171,16 @@ func c01RunE1(cs c01E1Case) (sig, detail string, reads []string, states []string
 			case 'C', 'Y':
 				if b != nil || !errs.IsErrTransformFailed(err) || err.Error() != errCont.Error() {
 					return bad("continuable-error-not-wrapped", fmt.Sprintf("got (%q, %T %v)", b, err, err), i)
+				}
+				lastErr = err
+			case 'P':
+				// Read has turned the panic into a result: it is an error without bytes, and if it is not a
+				// continuable one it is the terminal result from now on
+				if err == nil || b != nil {
+					return bad("panic-turned-into-success", fmt.Sprintf("got (%q, %v)", b, err), i)
+				}
+				if !errs.IsErrTransformFailed(err) {
+					terminal = err
 				}
 				lastErr = err
 			case 'F', 'G', 'X', 'E':
@@ -327,7 +347,7 @@ func init() {
 	core.Register(&core.Prop{
 		ID:    "C01",
 		Level: "model_checking",
-		Rule:  "E1: the real omniparser.Transform over a scripted caller-supplied ingester: every ingester answer sequence over {record A, record B, continuable error, two fatal errors, EOF, bytes+fatal error, bytes+continuable error} up to length 4 x every caller history over {Read, RawRecord(+Raw/Checksum)} up to length 7, each step checked against the contract automaton (states = distinct (latched?, last Read failed?, ingester position) reached, transitions = calls), plus the differential 'history with RawRecord calls removed gives the same Read results'; E2: the seven real readers on every token string up to length 5 over per-format alphabets for every minimal schema, under four driver variants (Read;RawRecord / no RawRecord / RawRecord twice / RawRecord before the first Read), 3 extra Reads after the terminal result, checksum recomputed from the raw node; E3: 11 FINAL_OUTPUT shapes (scalar field, const-less concat, object, array, no_trim, typed, external, javascript, copy) x csv / JSON / XML / EDI input x a value containing each single byte 0x00-0xFF and each of 41 multi-byte sequences (incl. text that looks like a JSON or HTML-safe escape) (valid runes incl. U+2028, non-characters, non-BMP; truncated, overlong, surrogate and lone-continuation sequences): every record valid UTF-8 JSON and, where defined, equal to the value with invalid bytes replaced by U+FFFD",
+		Rule:  "E1: the real omniparser.Transform over a scripted caller-supplied ingester: every ingester answer sequence over {record A, record B, continuable error, two fatal errors, EOF, bytes+fatal error, bytes+continuable error, panic} up to length 4 x every caller history over {Read, RawRecord(+Raw/Checksum)} up to length 7, each step checked against the contract automaton (states = distinct (latched?, last Read failed?, ingester position) reached, transitions = calls), plus the differential 'history with RawRecord calls removed gives the same Read results'; E2: the seven real readers on every token string up to length 5 over per-format alphabets for every minimal schema, under four driver variants (Read;RawRecord / no RawRecord / RawRecord twice / RawRecord before the first Read), 3 extra Reads after the terminal result, checksum recomputed from the raw node; E4: the same drivers over a caller-supplied file format (CustomFileFormats) whose reader builds its nodes by hand (all IDs 0), re-uses ONE record node, or uses the node pool, on every sequence of up to 4 lines over {a, b, 'a b', continuable failure, fatal failure, empty}; E3: 11 FINAL_OUTPUT shapes (scalar field, const-less concat, object, array, no_trim, typed, external, javascript, copy) x csv / JSON / XML / EDI input x a value containing each single byte 0x00-0xFF and each of 41 multi-byte sequences (incl. text that looks like a JSON or HTML-safe escape) (valid runes incl. U+2028, non-characters, non-BMP; truncated, overlong, surrogate and lone-continuation sequences): every record valid UTF-8 JSON and, where defined, equal to the value with invalid bytes replaced by U+FFFD",
 		Assumptions: []string{
 			"E1 assumes a well-behaved ingester in the sense of the interface documentation, except that it may return bytes together with an error",
 			"E2 inputs are token strings, not all byte strings; panics and non-termination are C03's subject and are not double-reported here",
@@ -386,6 +406,50 @@ func init() {
 				})
 				return !c.TimeUp()
 			})
+			// ---- E4: a caller-supplied file format under the built-in handler ----
+			for _, mode := range []string{"fresh", "reused", "pooled"} {
+				item := "custom-format/" + mode
+				schema, err := c01CustomSchema(item)
+				if err != nil {
+					c.HarnessError("custom format schema rejected: " + err.Error())
+					continue
+				}
+				lines := []string{"a", "b", "a b", "!", "#", ""}
+				maxLines := 4
+				if !c.Quick() {
+					maxLines = 5
+				}
+				gen.Sequences(len(lines), maxLines, func(seq []int) bool {
+					idx++
+					if !c.Mine(idx) {
+						return true
+					}
+					var b strings.Builder
+					for _, x := range seq {
+						b.WriteString(lines[x] + "\n")
+					}
+					for v := 0; v < 4; v++ {
+						cs := c01E2Case{Item: item, Schema: c01CustomSchemaText(mode), Input: b.String(), Variant: v}
+						c.Begin(func() interface{} { return map[string]interface{}{"e2": cs} })
+						sig, detail, nreads, outcome := c01RunE2(schema, cs)
+						c.Count("transitions", int64(nreads))
+						c.Count("traces_validated_against_impl", 1)
+						c.Count("custom_format_runs", 1)
+						c.Eval("E4|" + item + "|" + outcome)
+						if sig != "" {
+							c.Violation(sig, detail, map[string]interface{}{"e2": cs}, func() string {
+								sc, err := c01CustomSchema(item)
+								if err != nil {
+									return "harness:schema-rejected"
+								}
+								s, _, _, _ := c01RunE2(sc, cs)
+								return s
+							})
+						}
+					}
+					return !c.TimeUp()
+				})
+			}
 			// ---- E2 ----
 			L := 5
 			if !c.Quick() {
@@ -477,6 +541,17 @@ func init() {
 				sig, detail, reads, _ := c01RunE1(*w.E1)
 				if sig == "" {
 					detail = "contract held: " + strings.Join(reads, "; ")
+				}
+				return sig, detail
+			}
+			if w.E2 != nil && strings.HasPrefix(w.E2.Item, "custom-format/") {
+				schema, err := c01CustomSchema(w.E2.Item)
+				if err != nil {
+					return "harness:schema-rejected", err.Error()
+				}
+				sig, detail, _, outcome := c01RunE2(schema, *w.E2)
+				if sig == "" {
+					detail = "contract held; outcome " + outcome
 				}
 				return sig, detail
 			}
